@@ -4,7 +4,8 @@ From Coq Require Import List NArith ZArith Bool Arith Lia ZifyBool ZifyNat ZifyN
 From Coq Require Import Sorting.Permutation Sorting.Sorted.
 From Coq Require Import Strings.Byte.
 Require Import CU.model.Prim CU.model.Types CU.model.Unicode CU.model.Regex CU.model.Codec CU.model.Card CU.model.Dates CU.model.Iso.
-Require Import CU.spec.IsoSpec CU.proofs.NumProofs CU.proofs.PdsProofs.
+Require Import CU.model.Dec.
+Require Import CU.spec.IsoSpec CU.proofs.NumProofs CU.proofs.PdsProofs CU.proofs.DecProofs.
 Require CU.gen.GenConfig CU.gen.GenCodec.
 Import ListNotations.
 Open Scope nat_scope.
@@ -521,6 +522,22 @@ Proof.
   rewrite Ed. eexists. split; [reflexivity|]. exists []. auto.
 Qed.
 
+(* a decimal element (no processor): the text format(d, '0<w>f') goes out, and reads back as the decimal that prints as t *)
+Lemma ir_dec_field : forall cd bit c fl0 d t, codec_okb cd = true -> ir_digits_enc cd ->
+  f_len c = Some fl0 -> 1 <= fl0 -> f_ptype c = PTDec -> f_proc c = PNone ->
+  wf_decb d = true -> dec_str d = Some t ->
+  encodable cd (dec_fmt fl0 d) = true -> len_okb c (length (dec_fmt fl0 d)) = true ->
+  ir_rt bit c (VStr t) cd fl0 (ir_enc_str c (dec_fmt fl0 d) cd).
+Proof.
+  intros cd bit c fl0 d t Hcd Hdig Hfl Hw Hpt Hproc Hwd Hst Henc Hlen.
+  destruct (ir_text_rt cd c fl0 _ Hcd Hdig Hfl Henc Hlen) as [e [He [Hel Hrest]]].
+  exists e. split; [exact He|]. intros rest. destruct (Hrest rest) as [Hd Hs].
+  rewrite Hd. cbn [bind]. unfold ir_tail. cbv zeta. rewrite Hs. rewrite Hel.
+  unfold ir_fent, ir_fexp. rewrite Hproc. cbn [catch bind].
+  rewrite (proj2 (dec_element_roundtrip c fl0 d t Hpt Hfl Hw Hwd Hst)). cbn [catch bind].
+  eexists. split; reflexivity.
+Qed.
+
 Lemma ir_icc_field : forall cd bit c fl0 b sub, codec_okb cd = true -> ir_digits_enc cd ->
   f_len c = Some fl0 -> f_ptype c = PTStr -> f_proc c = PICC ->
   len_okb c (length b) = true -> icc_to_dict b = Ok sub ->
@@ -592,7 +609,17 @@ Proof.
       apply andb_true_iff in Hv. destruct Hv as [H1 H2]. apply Z.leb_le in H1.
       apply ir_int_field; try assumption.
       destruct (f_proc c); try discriminate; auto using ir_de43_noneb.
-    - discriminate.
+    - destruct v as [s|z|b|d]; try discriminate. rewrite Hfl in Hv. rewrite Hfl. cbv zeta.
+      destruct (dec_parse s) as [d| |] eqn:Edp; try discriminate.
+      apply andb_true_iff in Hwf. destruct Hwf as [Hw1 Hpr]. apply Nat.leb_le in Hw1.
+      apply andb_true_iff in Hv. destruct Hv as [Hv H4].
+      apply andb_true_iff in Hv. destruct Hv as [Hv H3].
+      apply andb_true_iff in Hv. destruct Hv as [H1 H2].
+      destruct (dec_str d) as [t'|] eqn:Est; [|discriminate].
+      apply ir_str_eqb_eq in H2. subst t'.
+      destruct fl0 as [|fl0]; [lia|]. cbn [bind].
+      apply ir_dec_field; try assumption.
+      destruct (f_proc c); try discriminate; reflexivity.
     - destruct v as [s|z|b|d]; try discriminate.
       apply andb_true_iff in Hv. destruct Hv as [H1 H2].
       destruct (strftime_m (f_datefmt c) d) as [t| | |] eqn:Est; try discriminate.
@@ -629,8 +656,9 @@ Proof.
   intros c cd v H. destruct v as [s|z|b|d]; try reflexivity.
   - destruct s; [|reflexivity]. exfalso. unfold wf_valb in H.
     destruct (f_ptype c); try discriminate.
-    cbn [length] in H. rewrite ir_len_okb_0 in H.
-    destruct (f_proc c); try discriminate; rewrite ?andb_false_r in H; discriminate.
+    + cbn [length] in H. rewrite ir_len_okb_0 in H.
+      destruct (f_proc c); try discriminate; rewrite ?andb_false_r in H; discriminate.
+    + change (dec_parse []) with DInvalid in H. destruct (f_len c); discriminate.
   - destruct b; [|reflexivity]. exfalso. unfold wf_valb in H.
     destruct (f_ptype c); try discriminate.
     cbn [length] in H. rewrite ir_len_okb_0 in H.
@@ -1530,3 +1558,39 @@ Theorem c01_packaged_domain :
   wf_cfgb CU.gen.GenConfig.packaged_bit_config = true /\
   forallb (fun nt => codec_okb (mkcodec (snd nt))) CU.gen.GenCodec.codec_tables = true.
 Proof. split; vm_compute; reflexivity. Qed.
+
+(* a decimal element of a well-formed message: its value is the text of a plain decimal, exactly as Python prints it,
+   and that same text is what decoding the encoded message returns for the element *)
+Theorem c01_decimal_message : forall cfg cd hexbm m n c v,
+  wf_cfgb cfg = true -> codec_okb cd = true -> wf_msgb cfg cd m = true ->
+  cfg_get cfg n = Some c -> f_ptype c = PTDec -> lookup m (KDE n) = Some v ->
+  exists t w d b dd,
+    v = VStr t /\ f_len c = Some w /\ 1 <= w /\ f_proc c = PNone /\
+    dec_parse t = DPlain d /\ wf_decb d = true /\ dec_str d = Some t /\
+    pytype_to_string v c = Ok (VStr (dec_fmt w d)) /\
+    dumps cfg cd hexbm m = Ok b /\ loads cfg cd hexbm b = Ok dd /\ lookup dd (KDE n) = Some (VStr t).
+Proof.
+  intros cfg cd hexbm m n c v Hcfg Hcd Hm Hc Hpt Hl.
+  destruct (ir_wf_msg_parts cfg cd m Hm) as [_ [_ [Hent _]]].
+  pose proof (Hent _ _ (ir_lookup_in _ _ _ Hl)) as Hw.
+  destruct (ir_entry_wf_field cfg cd _ n v Hcfg Hw) as [_ [c' [Hc' [Hwc [Hwv _]]]]].
+  rewrite Hc in Hc'. inversion Hc'; subst c'. clear Hc'.
+  unfold wf_fieldb in Hwc. unfold wf_valb in Hwv. rewrite Hpt in Hwc, Hwv.
+  destruct (f_len c) as [w|] eqn:Hfl; [|discriminate].
+  destruct v as [t| | |]; try discriminate.
+  destruct (dec_parse t) as [d| |] eqn:Edp; try discriminate.
+  apply andb_true_iff in Hwc. destruct Hwc as [Hw1 Hpr]. apply Nat.leb_le in Hw1.
+  assert (Hproc : f_proc c = PNone) by (destruct (f_proc c); try discriminate; reflexivity).
+  apply andb_true_iff in Hwv. destruct Hwv as [Hwv _].
+  apply andb_true_iff in Hwv. destruct Hwv as [Hwv _].
+  apply andb_true_iff in Hwv. destruct Hwv as [H1 H2].
+  destruct (dec_str d) as [t'|] eqn:Est; [|discriminate].
+  apply ir_str_eqb_eq in H2. subst t'.
+  destruct (c01_roundtrip cfg cd hexbm m Hcfg Hcd Hm) as [b [dd [Hd [Hld [C1 _]]]]].
+  exists t, w, d, b, dd.
+  repeat (split; [first [reflexivity | assumption]|]).
+  split.
+  - exact (proj1 (dec_element_roundtrip c w d t Hpt Hfl Hw1 H1 Est)).
+  - split; [exact Hd|]. split; [exact Hld|].
+    rewrite (C1 _ _ Hl). rewrite (ir_expected_fexp cfg n c _ Hc). unfold ir_fexp. rewrite Hproc. reflexivity.
+Qed.
